@@ -1,3 +1,4 @@
+import MaestroVerif.Model.Sched
 import MaestroVerif.Lemmas.ExecDemo
 
 /-!
@@ -86,5 +87,69 @@ example : verdict demoCfg (run demoCfg demoOps) ≠ .RUNNING ∧ (run demoCfg de
   have h : verdict demoCfg (run demoCfg demoOps) ≠ .RUNNING := by
     rw [demo_state.2.2.2.2.2]; decide
   exact ⟨h, C04_no_orphans demo_wf demo_reachable h⟩
+
+/-! ### the adapter side: which job was submitted -/
+section Submit
+open MaestroVerif.Sched
+
+theorem dropWhile_nondigit_append (pre rest : Str) (h : ∀ c ∈ pre, c.isDigit = false) :
+    (pre ++ rest).dropWhile (fun c => !c.isDigit) = rest.dropWhile (fun c => !c.isDigit) := by
+  induction pre with
+  | nil => rfl
+  | cons a as ih =>
+    have ha := h a (List.mem_cons_self ..)
+    simp only [List.cons_append, List.dropWhile_cons, ha, Bool.not_false, ↓reduceIte]
+    exact ih (fun c hc => h c (List.mem_cons_of_mem _ hc))
+
+theorem takeWhile_digits_append (jid rest : Str) (hj : ∀ c ∈ jid, c.isDigit = true)
+    (hr : ∀ c, rest.head? = some c → c.isDigit = false) :
+    (jid ++ rest).takeWhile Char.isDigit = jid := by
+  induction jid with
+  | nil =>
+    cases rest with
+    | nil => rfl
+    | cons c cs =>
+      have := hr c rfl
+      simp [List.takeWhile_cons, this]
+  | cons a as ih =>
+    have ha := hj a (List.mem_cons_self ..)
+    simp only [List.cons_append, List.takeWhile_cons, ha, ↓reduceIte]
+    rw [ih (fun c hc => hj c (List.mem_cons_of_mem _ hc))]
+
+/-- **The job that `sbatch` / `bsub` accepted is the job Maestro tracks**: when the submission
+command succeeds and its output carries the job number as its first run of digits
+(`Submitted batch job 123`, `Submitted batch job 123 on cluster x`, `Job <123> is submitted to
+queue <q>.`, with any digit-free text before it and anything not starting with a digit after it)
+the adapter reports the submission as OK with exactly that number; and a failing command is
+never reported as a submission. -/
+theorem C04_submit_id_exact (pre jid rest : Str) (hp : ∀ c ∈ pre, c.isDigit = false)
+    (hne : jid ≠ []) (hj : ∀ c ∈ jid, c.isDigit = true)
+    (hr : ∀ c, rest.head? = some c → c.isDigit = false) :
+    submitResult 0 (pre ++ jid ++ rest) = .ok (.OK, some jid) ∧
+    ∀ rc out, rc ≠ 0 → submitResult rc out = .ok (.ERROR, none) := by
+  constructor
+  · unfold submitResult firstDigits
+    simp only [BEq.rfl, ↓reduceIte, List.append_assoc]
+    rw [dropWhile_nondigit_append pre _ hp]
+    cases jid with
+    | nil => exact absurd rfl hne
+    | cons a as =>
+      have ha := hj a (List.mem_cons_self ..)
+      simp only [List.cons_append, List.dropWhile_cons, ha, Bool.not_true, Bool.false_eq_true, ↓reduceIte]
+      have := takeWhile_digits_append (a :: as) rest hj hr
+      simp only [List.cons_append] at this
+      rw [this]
+  · intro rc out hrc
+    unfold submitResult
+    have : (rc == 0) = false := by simpa using hrc
+    simp [this]
+
+example : (match submitResult 0 "Submitted batch job 4100001 on cluster alpha2\n".toList,
+      submitResult 0 "Job <77> is submitted to queue <batch>.\n".toList,
+      submitResult 1 "Submitted batch job 5".toList with
+    | .ok (.OK, some a), .ok (.OK, some b), .ok (.ERROR, none) => a == "4100001".toList && b == "77".toList
+    | _, _, _ => false) = true := by decide +kernel
+
+end Submit
 
 end MaestroVerif.C04
